@@ -4,8 +4,8 @@
    matters, by the premise on its derivative. *)
 From Coq Require Import Reals ZArith List Bool Lra Lia.
 From Coquelicot Require Import Coquelicot.
-From Sky Require Import Num NumR Result PyList G_pdf M_Pdf S_Pdf M_Livetime S_Livetime
-  P_PdfTime P_Pdf P_PdfBridge.
+From Sky Require Import Num NumR Result PyList G_pdf M_Pdf M_PdfState M_PdfExt S_Pdf S_PdfState
+  M_Livetime S_Livetime P_PdfTime P_Pdf P_PdfBridge P_PdfState P_PdfExt P_PdfSmooth.
 Import ListNotations.
 
 (* ------------------------------------------------------------------ time densities *)
@@ -186,6 +186,181 @@ Theorem C10_valid_evaluable : forall (A : Type) (hist : list (list A)) (edgesE e
 Proof. exact @eh_valid_evaluable. Qed.
 Print Assumptions C10_valid_evaluable.
 
+(* ------------------------------------------------------------------ state machines *)
+
+(* SignalTimePDF._calculate_pd, ANY number system: starting from a state whose
+   cached S belongs to its profile, every source block is the density
+   normalised with the S of the profile reached by ITS row, and the state left
+   behind again satisfies the invariant (S recomputed iff set_params updated) *)
+Theorem C10_multi_source_own_S : forall (T : Type) (N : Num T) (ivs : list (T * T)) (tol : T)
+    (st : tstate) (rows : list (T * T)) (times : list (list T)),
+  snd st = S_of N ivs (fst st) ->
+  fst (calc_pd N ivs tol st rows times) = calc_spec N ivs tol (fst st) rows times /\
+  snd (snd (calc_pd N ivs tol st rows times))
+    = S_of N ivs (fst (snd (calc_pd N ivs tol st rows times))).
+Proof. exact @calc_pd_spec. Qed.
+Print Assumptions C10_multi_source_own_S.
+
+(* ... over any history of get_pd calls on one object *)
+Theorem C10_calls_keep_S : forall (T : Type) (N : Num T) (ivs : list (T * T)) (tol : T)
+    (st : tstate) (calls : list (list (T * T) * list (list T))),
+  snd st = S_of N ivs (fst st) ->
+  snd (snd (calc_calls N ivs tol st calls)) = S_of N ivs (fst (snd (calc_calls N ivs tol st calls))).
+Proof. exact @calc_calls_inv. Qed.
+Print Assumptions C10_calls_keep_S.
+
+(* set_params reports `not updated` only when the profile is unchanged *)
+Theorem C10_set_params_flag : forall (T : Type) (N : Num T) (tol : T) (p : profile) (r : T * T),
+  snd (apply_row N tol p r) = false -> fst (apply_row N tol p r) = p.
+Proof. exact @apply_row_noupd. Qed.
+Print Assumptions C10_set_params_flag.
+
+(* real-number reading: a freshly constructed PDF evaluated for K sources gives,
+   for source k, the density of the box [t0_k - tw_k/2, t0_k + tw_k/2] resp. of the
+   gaussian (t0_k, sigma_k) with its support window — each with its own S
+   (so C10_time_norm applies to every source separately) *)
+Theorem C10_multi_source : forall (erf : R -> R) (tol : R) (ivs : list (R * R)) (p : profile)
+    (rows : list (R * R)) (times : list (list R)),
+  match p with
+  | Gauss ts te s => (te - ts = 2 * gs_set_sigma_dt (RNum erf) s tol)%R
+  | Box _ _ => True
+  end ->
+  length rows = length times ->
+  fst (calc_pd (RNum erf) ivs tol (tinit (RNum erf) ivs p) rows times)
+  = map (fun rt =>
+           map (sig_time_pd (RNum erf) ivs
+                  match p with
+                  | Box _ _ => Box (fst (fst rt) - snd (fst rt) / 2)%R (fst (fst rt) + snd (fst rt) / 2)%R
+                  | Gauss _ _ _ =>
+                      Gauss (fst (fst rt) - gs_set_sigma_dt (RNum erf) (snd (fst rt)) tol)%R
+                            (fst (fst rt) + gs_set_sigma_dt (RNum erf) (snd (fst rt)) tol)%R
+                            (snd (fst rt))
+                  end)
+               (snd rt))
+        (combine rows times).
+Proof. exact multi_source. Qed.
+Print Assumptions C10_multi_source.
+
+(* BackgroundI3SpatialPDF: after EVERY sequence of add_events / reset the node
+   values of the log-spline (and the ones kept for reset) integrate to one *)
+Theorem C10_add_events_reset : forall (erf : R -> R) (h edges : list R) (st0 : sstate) (ops : list sop),
+  sinit (RNum erf) h edges = Ok st0 ->
+  length edges = S (length h) ->
+  List.Forall (fun lu => (fst lu < snd lu)%R) (combine (removelast edges) (tl edges)) ->
+  List.Forall (fun x => (0 <= x)%R) h -> Rsum h <> 0%R ->
+  List.Forall (fun o => match o with
+                        | AddEvents u => length u = length h /\ List.Forall (fun x => (0 <= x)%R) u
+                        | Reset => True
+                        end) ops ->
+  (step_integral (RNum erf) (s_nodes (srun (RNum erf) edges st0 ops)) (bin_widths (RNum erf) edges) = 1%R /\
+   step_integral (RNum erf) (s_orig_nodes (srun (RNum erf) edges st0 ops)) (bin_widths (RNum erf) edges) = 1%R) /\
+  s_orig (srun (RNum erf) edges st0 ops) = h.
+Proof. exact srun_norm. Qed.
+Print Assumptions C10_add_events_reset.
+
+(* the log-spline with scipy's spline as an oracle (contract: it interpolates its
+   nodes): the mid-point rule over the sphere of the returned density equals the
+   step integral of the node values — "normalised within the documented
+   approximation" means: exactly, in the mid-point rule; positivity holds at
+   every point (C10_shist_pos) *)
+Theorem C10_spline_midpoint : forall (erf : R -> R) (spl : list R -> list R -> R -> R),
+  (forall xs ys i, length xs = length ys -> (i < length xs)%nat ->
+     spl xs ys (nth i xs 0%R) = nth i ys 0%R) ->
+  forall centers nodes widths : list R,
+  length centers = length nodes -> length widths = length nodes ->
+  List.Forall (fun x => (0 < x)%R) nodes ->
+  Rsum (map (fun cw => (2 * PI * sh_pd (RNum erf) (spl centers (map ln nodes) (fst cw)) * snd cw)%R)
+            (combine centers widths))
+  = step_integral (RNum erf) nodes widths.
+Proof. exact spline_midpoint. Qed.
+Print Assumptions C10_spline_midpoint.
+
+(* ------------------------------------------------------------------ zero normalisations (extended reals) *)
+
+(* off-time events are exactly zero in every number system, whatever S is *)
+Theorem C10_off_time_zero : forall (T : Type) (N : Num T) (ivs : list (T * T)) (p : profile) (t : T),
+  lt_is_on N ivs t = false ->
+  sig_time_pd N ivs p t = nzero N /\ bkg_time_pd N ivs p t = nzero N.
+Proof. exact @off_time_zero. Qed.
+Print Assumptions C10_off_time_zero.
+
+(* S = 0 (window without on-time): +inf where the profile is positive, NaN where it is zero *)
+Theorem C10_time_S_zero_ext : forall (erf : R -> R) (ivs : list (ext * ext)) (p : profile) (t : ext),
+  S_of (XNum erf) ivs p = Fin 0 ->
+  (lt_is_on (XNum erf) ivs t = false -> sig_time_pd (XNum erf) ivs p t = Fin 0) /\
+  (lt_is_on (XNum erf) ivs t = true -> forall x, prof_call (XNum erf) p t = Fin x ->
+     ((0 < x)%R -> sig_time_pd (XNum erf) ivs p t = PInf) /\
+     (x = 0%R -> sig_time_pd (XNum erf) ivs p t = XNaN)).
+Proof. exact time_pd_S_zero. Qed.
+Print Assumptions C10_time_S_zero_ext.
+
+(* an empty declination band is NaN throughout; a band with content is the real model *)
+Theorem C10_ehist_empty_band_ext : forall (erf : R -> R) (c w : list R),
+  length c = length w -> Rsum c = 0%R -> List.Forall (fun x => x = 0%R) c ->
+  eh_band (XNum erf) (map Fin c) (map Fin w) = map (fun _ => XNaN) c.
+Proof. exact eh_band_empty. Qed.
+Print Assumptions C10_ehist_empty_band_ext.
+
+Theorem C10_ehist_band_ext_is_real : forall (erf : R -> R) (c w : list R),
+  length c = length w -> Rsum c <> 0%R -> List.Forall (fun x => x <> 0%R) w ->
+  eh_band (XNum erf) (map Fin c) (map Fin w) = map Fin (eh_band (RNum erf) c w).
+Proof. exact eh_band_fin. Qed.
+Print Assumptions C10_ehist_band_ext_is_real.
+
+Theorem C10_time_ext_is_real : forall (erf : R -> R) (S x : R),
+  S <> 0%R -> tp_sig_pd (XNum erf) (Fin S) (Fin x) = Fin (tp_sig_pd (RNum erf) S x).
+Proof. exact time_pd_fin. Qed.
+Print Assumptions C10_time_ext_is_real.
+
+(* the guard S <> 0 of C10_time_norm is needed: witnesses *)
+Theorem C10_time_S_zero_refuted : forall erf : R -> R,
+  wfR [(0, 1)]%R /\ (2 <= 3)%R /\
+  S_of (RNum erf) [(0, 1)]%R (Box 2 3)%R = 0%R /\
+  Rsum (map (fun iv => RInt (sig_time_pd (RNum erf) [(0, 1)]%R (Box 2 3)%R) (fst iv) (snd iv)) [(0, 1)]%R) = 0%R.
+Proof. exact S_zero_refuted. Qed.
+Print Assumptions C10_time_S_zero_refuted.
+
+Theorem C10_time_S_zero_witness : forall erf : R -> R,
+  S_of (XNum erf) [(Fin 0, Fin 1)] (Box (Fin (1 / 2)) (Fin (1 / 2))) = Fin 0 /\
+  sig_time_pd (XNum erf) [(Fin 0, Fin 1)] (Box (Fin (1 / 2)) (Fin (1 / 2))) (Fin (1 / 2)) = PInf /\
+  sig_time_pd (XNum erf) [(Fin 0, Fin 1)] (Box (Fin (1 / 2)) (Fin (1 / 2))) (Fin (1 / 4)) = XNaN /\
+  sig_time_pd (XNum erf) [(Fin 0, Fin 1)] (Box (Fin (1 / 2)) (Fin (1 / 2))) (Fin 2) = Fin 0.
+Proof. exact S_zero_witness. Qed.
+Print Assumptions C10_time_S_zero_witness.
+
+(* ------------------------------------------------------------------ smoothed histograms *)
+
+(* partial: every smoothed bin is a convex combination of input bins — non-negative
+   and bounded by the input range *)
+Theorem C10_smooth_convex_partial : forall (erf : R -> R) (k h : list R) (lo hi : R),
+  List.Forall (fun x => (0 <= x)%R) k ->
+  List.Forall (fun x => (lo <= x <= hi)%R) h ->
+  (forall i, (i < length h)%nat ->
+     (0 < Rsum (map (fun l => kat (RNum erf) k
+                                  (Z.of_nat i + (Z.of_nat (length k) - 1) / 2 - Z.of_nat l)%Z)
+                    (seq 0 (length h))))%R) ->
+  List.Forall (fun x => (lo <= x <= hi)%R) (smooth1 (RNum erf) k h).
+Proof. exact smooth_convex. Qed.
+Print Assumptions C10_smooth_convex_partial.
+
+(* what a symmetric kernel conserves exactly: the mass weighted with the kernel
+   norms (not the bin-width normalisation) *)
+Theorem C10_smooth_conserves : forall (erf : R -> R) (k h : list R),
+  (forall i l, kw erf k i l = kw erf k l i) ->
+  (forall i, (i < length h)%nat -> knorm erf k (length h) i <> 0%R) ->
+  Rsum (map (fun i => (knorm erf k (length h) i * nth i (smooth1 (RNum erf) k h) 0)%R) (seq 0 (length h)))
+  = Rsum (map (fun l => (knorm erf k (length h) l * nth l h 0)%R) (seq 0 (length h))).
+Proof. exact smooth_conserves. Qed.
+Print Assumptions C10_smooth_conserves.
+
+(* exact normalisation after smoothing is refuted: block kernel, unit widths *)
+Theorem C10_smooth_norm_refuted : forall erf : R -> R,
+  step_integral (RNum erf) [1; 0; 0]%R [1; 1; 1]%R = 1%R /\
+  smooth1 (RNum erf) [1; 1; 1]%R [1; 0; 0]%R = [1 / 2; 1 / 3; 0 / 2]%R /\
+  step_integral (RNum erf) (smooth1 (RNum erf) [1; 1; 1]%R [1; 0; 0]%R) [1; 1; 1]%R = (5 / 6)%R.
+Proof. exact smooth_norm_refuted. Qed.
+Print Assumptions C10_smooth_norm_refuted.
+
 (* ------------------------------------------------------------------ non-vacuity *)
 
 (* the hypotheses of the time theorems are satisfiable: a concrete live time
@@ -216,3 +391,14 @@ Example C10_upper_edge :
   eh_get_pd_old hist eE eS 40 0 = Err IndexError /\
   eh_get_pd_old hist eE eS 16 8 = Err IndexError.
 Proof. cbv zeta. repeat split; try (vm_compute; reflexivity); cbn; lia. Qed.
+
+(* non-square histograms, both axes: 2 x 4 and 4 x 2 (seeded C10-6) *)
+Example C10_upper_edge_nonsquare :
+  let e2 := [0; 8; 16]%Z in let e4 := [-8; -4; 0; 4; 8]%Z in
+  let h24 := [[11; 12; 13; 14]; [21; 22; 23; 24]]%Z in
+  let h42 := [[11; 12]; [21; 22]; [31; 32]; [41; 42]]%Z in
+  eh_assert_valid e2 e4 16 8 = Ok tt /\ eh_get_pd h24 e2 e4 16 8 = Ok 24%Z /\
+  eh_get_pd h24 e2 e4 3 8 = Ok 14%Z /\ eh_get_pd h24 e2 e4 16 (-8) = Ok 21%Z /\
+  eh_assert_valid e4 e2 8 16 = Ok tt /\ eh_get_pd h42 e4 e2 8 16 = Ok 42%Z /\
+  eh_get_pd h42 e4 e2 8 3 = Ok 41%Z /\ eh_get_pd h42 e4 e2 (-8) 16 = Ok 12%Z.
+Proof. cbv zeta. repeat split; vm_compute; reflexivity. Qed.
